@@ -181,6 +181,103 @@ def fn_masks(items):
     return {'n': n_, 'nt': nt, 'viol': viol}
 
 
+def fn_embed_seq(items):
+    """item = [pkg, N]: SEVERAL maps embedded one after another into one identity_map(N) on pairwise disjoint masks (every
+    ordered choice of 2 or 3 disjoint masks of 1-2 qubits, masks with holes included): the result must be the map that
+    acts with each small map on its own qubits (reference: block-wise overwrite), whatever the order of embedding."""
+    n = nt = 0
+    viol = []
+    for pkg, N in items:
+        if pkg == 'py':
+            ident, CM, arr = lib.pc.identity_map, lib.CM, (lambda M: (np.asarray(M.gs).astype(np.int64), np.asarray(M.ps).astype(np.int64) % 4))
+            mkmask = lambda mb: mb.copy()
+        else:
+            m_ = lib.torch_mods()
+            ident, CM, arr = m_['tc'].identity_map, lib.tCM, (lambda M: (lib.t2n(M.gs), lib.t2n(M.ps) % 4))
+            mkmask = lambda mb: m_['torch'].tensor(mb.copy())
+        masks = [qs for k in (1, 2) for qs in itertools.combinations(range(N), k)]
+        small = {1: [dom.valid_maps(1)[i] for i in (5, 9, 22)], 2: [dom.valid_maps(2)[i] for i in (3301, 5003, 777)]}
+        seqs = [(a, b) for a in masks for b in masks if not set(a) & set(b)]
+        seqs += [(a, b, c) for a in masks for b in masks for c in masks if not (set(a) & set(b) or set(a) & set(c) or set(b) & set(c))]
+        for si, seq in enumerate(seqs):
+            big = ident(N)
+            eg, ep = np.eye(2 * N, dtype=np.int64), np.zeros(2 * N, dtype=np.int64)
+            names = []
+            for j, qs in enumerate(seq):
+                t, s_ = small[len(qs)][(si + j) % 3]
+                mb = np.zeros(N, dtype=bool)
+                mb[list(qs)] = True
+                big.embed(CM(t, s_), mkmask(mb))
+                cols = [c for q in qs for c in (2 * q, 2 * q + 1)]
+                eg[np.ix_(cols, cols)] = t
+                ep[cols] = np.asarray(s_) % 4
+                names.append(list(qs))
+            n += 1
+            nt += 1
+            og, op = arr(big)
+            if (og != eg).any() or (op != ep).any():
+                hole = any(max(qs) - min(qs) + 1 > len(qs) for qs in seq)
+                viol.append(V('C03/embed-sequence/%s/%s' % (pkg, 'mask-with-hole' if hole else 'contiguous-masks'), [pkg, N],
+                              '%s N=%d: identity_map.embed on the masks %s in this order: rows %s are not the block-wise embedding' % (
+                                  pkg, N, names, np.argwhere((og != eg).any(axis=1) | (op != ep)).reshape(-1).tolist())))
+                if len(viol) > 20:
+                    break
+    return {'n': n, 'nt': nt, 'viol': viol}
+
+
+def fn_map_histories(items):
+    """item = [pkg, N, lo, hi]: ONE map object M (maps #lo..hi-1 of the complete set) is USED (applied to the whole group,
+    given to compose as argument and as receiver), then EVOLVED in place (transform_by another map, masked
+    transform_by, rotate_by, embed, transform_by itself), then used again.  After the evolution every use must agree
+    with the reference homomorphism of M's CURRENT rows (anything memoised on the object from the first use shows up)."""
+    n = nt = 0
+    viol = []
+    for pkg, N, lo, hi in items:
+        py = pkg == 'py'
+        CM, PL, P = (lib.CM, lib.PL, lib.P) if py else (lib.tCM, lib.tPL, lib.tP)
+        torch = None if py else lib.torch_mods()['torch']
+        arr = (lambda M: (np.asarray(M.gs).astype(np.int64), np.asarray(M.ps).astype(np.int64) % 4)) if py else (lambda M: (lib.t2n(M.gs), lib.t2n(M.ps) % 4))
+        maps = dom.valid_maps(N)
+        Gs, Ps = group_arrays(N)
+        t1, s1 = dom.valid_maps(1)[9]
+        for k in range(lo, min(hi, len(maps))):
+            t, s_ = maps[k]
+            tx, sx = maps[(k * 131 + 7) % len(maps)]
+            mb = np.zeros(N, dtype=bool)
+            mb[N - 1] = True
+            mkm = (lambda: mb.copy()) if py else (lambda: torch.tensor(mb.copy()))
+            evolutions = [('transform_by(map)', lambda M: M.transform_by(CM(tx, sx))),
+                          ('transform_by(itself)', lambda M: M.transform_by(M)),
+                          ('rotate_by', lambda M: M.rotate_by(P(ref.all_g(N)[(k % (4 ** N - 1)) + 1], 2 * (k % 2))))]
+            if N >= 2:
+                evolutions.append(('transform_by(map, mask)', lambda M: M.transform_by(CM(t1, s1), mask=mkm())))
+                evolutions.append(('embed', lambda M: M.embed(CM(t1, s1), mkm())))
+
+            def use(M):
+                lst = PL(Gs, Ps)
+                lst.transform_by(M)
+                X = CM(tx, sx)
+                return [arr(lst), arr(X.compose(M)), arr(M.compose(CM(tx, sx)))]
+            for enm, ev in evolutions:
+                M = CM(t, s_)
+                use(M)
+                try:
+                    ev(M)
+                except Exception:
+                    continue
+                cg, cp = arr(M)
+                got = use(M)
+                want = [ref.map_apply(cg, cp, Gs, Ps), ref.map_apply(cg, cp, tx, sx), ref.map_apply(tx, sx, cg, cp)]
+                n += 3
+                nt += 3
+                for what, (g1, p1), (g2, p2) in zip(('transform_by(M) of the whole group', 'X.compose(M)', 'M.compose(X)'), got, want):
+                    if (g1 != g2).any() or (p1 != np.asarray(p2) % 4).any():
+                        viol.append(V('C03/map-history/%s/%s' % (pkg, enm.split('(')[0] + ('-mask' if 'mask' in enm else '') + ('-itself' if 'itself' in enm else '')), [pkg, N, k, k + 1],
+                                      '%s N=%d map #%d: used, then evolved in place by %s, then used again: %s does not follow the current rows of the map' % (pkg, N, k, enm, what)))
+                        break
+    return {'n': n, 'nt': nt, 'viol': viol}
+
+
 def fn_rotmap(items):
     """item = [N, gi]: clifford_rotation_map(G) acts identically to rotate_by(G) (both signs)."""
     n = nt = 0
@@ -346,6 +443,11 @@ def legs(tier):
     out.append(Leg('masks', fn_masks, mitems, chunk=1,
                    bound='all 24 one-qubit maps at every position of N=2,3; two-qubit maps on the 3 masks of N=3: %s; each also through identity_map(N).embed' % (
                        'all 11520' if tier != 'quick' else '768 spread over the group (32 of every 480)')))
+    hs = 97 if tier == 'quick' else 7
+    out.append(Leg('map_histories', fn_map_histories, [[pkg, 1, 0, 24] for pkg in ('py', 'torch')] + [[pkg, 2, lo, lo + 1] for pkg in ('py', 'torch') for lo in range(0, 11520, hs)], chunk=8,
+                   bound='both packages: use -> evolve in place (transform_by a map / itself / masked, rotate_by, embed) -> use again on ONE map object: all 24 N=1 maps, every %dth N=2 map' % hs))
+    out.append(Leg('embed_sequences', fn_embed_seq, [[pkg, N] for pkg in ('py', 'torch') for N in (2, 3, 4)], chunk=1,
+                   bound='both packages, N=2,3,4: every ordered choice of 2 or 3 pairwise disjoint masks of 1-2 qubits (holes included) embedded one after another into one identity map'))
     out.append(Leg('rotation_maps', fn_rotmap, [[N, gi] for N in (1, 2, 3) for gi in range(4 ** N)], chunk=4,
                    bound='all Hermitian generators N<=3: clifford_rotation_map vs rotate_by vs U^dag P U on the whole group'))
     if tier != 'quick':
